@@ -52,6 +52,8 @@ def c01(res: CheckResult) -> None:
     conc_unit(res, "concurrent asyncio callers of the same function / object (fresh / inherited contexts): every call is "
                    "gated by its own preconditions", list(F.fam_conc(res.tier, rng, True)), ic, "async",
               6 if res.tier == "quick" else 60)
+    def_unit(res, "post-hoc decoration of a member of an already created class: the calls on every class obey the "
+                  "effective preconditions", list(DF.fam_posthoc(res.tier, rng)), ic, verdicts=True, rng=rng)
     def_unit(res, "inherited precondition groups incl. overrides under foreign decorators: calls judged against the "
                   "effective DNF for all truth assignments", list(DF.fam_foreign_hier(res.tier, rng)), ic,
              verdicts=True, rng=rng)
@@ -262,7 +264,7 @@ def c17(res: CheckResult) -> None:
     def_unit(res, "inheritance DAGs x contract placements: every earlier class re-projected after each step",
              list(DF.fam_hier(res.tier, rng)), ic, rng=rng)
     def_unit(res, "post-hoc decoration of a member of an already created class (K.f = require(..)(K.f))",
-             list(DF.fam_posthoc(res.tier, rng)), ic, rng=rng)
+             list(DF.fam_posthoc(res.tier, rng)), ic, verdicts=True, rng=rng)
     def_unit(res, "every placement of {absent, bare, pre, post} on every class of every shape (exhaustive)",
              list(DF.fam_hier_small(res.tier, rng)), ic, rng=rng)
 
